@@ -183,6 +183,7 @@ def qk_forms(job, cs):
         out.append(('int-text?', str(cs // 100), False))          # whole units keyed in without a decimal point ('200'): may be refused, must be right if answered
     if job['timed'] and cs >= 6000:
         out.append(('m:ss.xx', mss(cs), False))
+        out.append(('m;ss.xx', mss(cs).replace(':', ';'), False))          # the colon typed without shift, which parse_hms documents
     return out
 
 
@@ -313,6 +314,7 @@ def bg_forms(job, cs):
         out.append(('text2', txt2(cs), False))
         if cs >= 6000:
             out.append(('m:ss.xx', mss(cs), False))
+            out.append(('m;ss.xx', mss(cs).replace(':', ';'), False))
     return out
 
 
